@@ -191,6 +191,7 @@ void runDamage(const Opts& o, long idx, CaseLog& log) {
     g_hook.maxLoopEntries = 4096 + 8 * size;      // entries of the (recursive) parameter-matrix loops: CPU-only loops over zero-sized inner dimensions issue no read
     g_hook.maxReads = 256 + 4 * size; g_hook.maxReadsAfterFail = (unsigned long)o.geti("max_reads_after_fail", 1024);
     g_hook.maxAllocBytes = (8ul << 20) + 400 * size; g_hook.maxSingleAlloc = (64ul << 20) + 400 * size;
+    g_hook.hardMult = (unsigned long)o.geti("hardmult", 1); g_hook.softHit = false;
     installAllocHooks();
     g_hook.budgetOn = true;
     std::unique_ptr<ezc3d::c3d> c; Outcome oc;
